@@ -29,6 +29,7 @@ type Env struct {
 	nextID        int
 	dialStarted   int
 	dialCancelled int
+	dialFinished  int
 	cond          *sync.Cond
 }
 
@@ -60,6 +61,13 @@ func (e *Env) DialsStarted() int {
 	e.mu.Lock()
 	defer e.mu.Unlock()
 	return e.dialStarted
+}
+
+// DialsFinished: dials that ran to completion (successfully or with a scripted error).
+func (e *Env) DialsFinished() int {
+	e.mu.Lock()
+	defer e.mu.Unlock()
+	return e.dialFinished
 }
 
 func (e *Env) DialsCancelled() int {
@@ -119,6 +127,12 @@ func (e *Env) Dial(ctx context.Context) (*fakenet.Conn, error) {
 			return nil, context.Cause(ctx)
 		}
 	}
+	defer func() {
+		e.mu.Lock()
+		e.dialFinished++
+		e.cond.Broadcast()
+		e.mu.Unlock()
+	}()
 	c := fakenet.New(e.Datagram)
 	// The connection number is assigned atomically; a failed dial gives its number back
 	// only if nothing else was dialled meanwhile (numbers of successful dials stay unique).
